@@ -1,5 +1,5 @@
 #!/venv/bin/python
-"""C05: indexing a list/str/tuple with an int that does not fit a machine word raises OverflowError in compiled code,
+"""C05: indexing a list/str/tuple with an int that does not fit a machine word raises OverflowError (ValueError for bytes) in compiled code,
 IndexError in CPython (an `except IndexError:` handler therefore behaves differently).  exit 1 = defect present."""
 import os, sys
 sys.path.insert(0, os.path.dirname(os.path.abspath(__file__)))
@@ -14,5 +14,8 @@ def li(l: list[int], i: int) -> int:
 
 def st(s: str, i: int) -> str:
     return s[i]
+
+def by(b: bytes, i: int) -> int:
+    return b[i]
 '''
-report(both(SRC, ["li([1, 2], 2**64)", "li([1, 2], -2**63 - 1)", "li([1, 2], 5)", "st('ab', 2**70)"]), lambda a, b: a[:2] != b[:2])
+report(both(SRC, ["li([1, 2], 2**64)", "li([1, 2], -2**63 - 1)", "li([1, 2], 5)", "st('ab', 2**70)", "by(b'ab', 2**63)"]), lambda a, b: a[:2] != b[:2])
